@@ -48,7 +48,11 @@ def _values_for(value, rng, pool):
             outs.append(('pool1', extra[:1]))
         return [(l, o) for l, o in outs if o != items]
     if type(value) in (list, tuple) and value:
-        return [('first', type(value)(value[:1])), ('doubled', type(value)(list(value) + list(value))), ('reversed', type(value)(value[::-1]))]
+        outs = [('first', type(value)(value[:1])), ('doubled', type(value)(list(value) + list(value))), ('reversed', type(value)(value[::-1]))]
+        if all(isinstance(x, str) for x in value):
+            # a list of text items: an empty item at the end (the root label of an absolute domain name) and in the middle
+            outs += [('plus-empty-last', type(value)(list(value) + [''])), ('plus-empty-middle', type(value)([value[0], ''] + list(value[1:])))]
+        return outs
     return out
 
 
